@@ -158,6 +158,41 @@ def _one(idx):
     return out
 
 
+def trace_validate(run, tier, seed):
+    """(T) larger listings than TLC enumerates: record (query, answering range) on real objects, TLC validates against MultiRange"""
+    rnd = random.Random(seed * 17 + 3)
+    traces = []
+    for t in range(60 if tier == "quick" else 600):
+        n = rnd.randint(4, 9)
+        listing = [[rnd.choice([">", ">="]), 2 * rnd.randint(0, 8)] for _ in range(n)]
+        f = build_api(dict(listing=listing), ["analytic", "mixed", "numeric"][t % 3])
+        ev = []
+        for q in range(rnd.randint(5, 14)):
+            x2 = rnd.randint(-1, 18)
+            v = f(x2 / 2.0)
+            # every listed range whose sub-potential gives this value (identical duplicates give the same value only if same id)
+            ids = [0] if v == 0.0 else [rid for rid in range(1, n + 1) if abs(val(rid, x2 / 2.0) - v) < 1e-9]
+            ev.append(dict(r=x2 + 1000, ids=ids or [-1]))
+        traces.append(dict(listing=listing, ev=ev, canary=False))
+    can = json.loads(json.dumps(traces[0]))
+    can["canary"] = True
+    can["ev"][-1]["ids"] = [len(can["listing"]) + 5]
+    traces.append(can)
+    res, rep = tlc.batch_validate("MultiRangeTrace", "MultiRangeTrace.cfg", traces)
+    run.add_tlc("MultiRangeTrace(%d traces)" % len(traces), res, exhaustive=False)
+    for t, (reached, total, complete) in zip(traces, rep):
+        if t["canary"]:
+            if complete == 1:
+                run.machinery("trace validation is vacuous: the corrupted canary trace was accepted")
+            continue
+        run.traces += 1
+        run.distinct("trace:" + json.dumps(t["listing"]))
+        if complete != 1:
+            run.violation(dict(engine="multirange", clause="trace-rejected", route="api"),
+                          "[trace-rejected] listing %s: matched %d of %d recorded queries; next: %s" % (t["listing"], reached - 1, total, t["ev"][reached - 1] if reached - 1 < total else None), dict(trace=t))
+    run.sample(dict(trace_listing=traces[0]["listing"], events=traces[0]["ev"][:4], validated_by="TLC MultiRangeTrace"))
+
+
 def main(prop, tier, seed):
     global _CASES, _SEED
     import multiprocessing as mp
@@ -213,6 +248,7 @@ def main(prop, tier, seed):
                         groups[key] = (sel, case)
             if not run.samples and cases:
                 run.sample(dict(listing=cases[0]["listing"]))
+            trace_validate(run, tier, seed)
             run.rule = "cases = every listing of 1..N ranges over {>,>=} x 4 starts (TLC) x 11 query points x 4 evaluation orders on one object; non-trivial = listing of >= 2 ranges; distinct by listing"
     except tlc.TLCError as e:
         run.machinery(str(e))
